@@ -81,6 +81,8 @@ def run(snap, tier, seed, t0, replay):
             d = os.path.join(snap.root, "genconf_%d_%s" % (k, sub))
             confgen.emit(params, d)
             sub_args = dict(sa, seed=seed * 1000 + k)
+            if sub == "c11" and params.get("prefix_vocab"):
+                sub_args["no_last"] = True      # (entities the known resolva limit hides change every '>' answer: not classifiable by mechanism)
             args.append({"sub": sub, "sub_args": sub_args, "params": params, "conf_index": k})
             envs.append(snap.env(conf_first=d))
     results = run_shards(snap, "c20", args, envs=envs, timeout=3300)
